@@ -15,6 +15,8 @@ package glob
 
 //@ func Glob(pattern string, input string, opts []Option) (result bool)
 //@   property C20
+//@   pure
+//@   requires len(opts) == 0
 //@   let P = arr(pattern)
 //@   let po = off(pattern)
 //@   let S = arr(input)
